@@ -116,7 +116,7 @@ def observe(trace, res, solver, prog, oid, cfg0, meta):
     for sec in conf.sections():
         for opt in conf[sec]:
             raw = conf.get(sec, opt, raw=True).strip()
-            cfg["%s.%s" % (sec, opt)] = 0 if raw == "0" else 1 if raw == "1" else 2
+            cfg["%s.%s" % (sec, opt)] = 0 if raw in ("0", "") else 1 if raw == "1" else 2      # (a blank is a valid answer: zero)
     c0 = {k: (0 if v == "0" else 1 if v == "1" else 2) for k, v in cfg0.items()}
     attempts, drained, waits, loads = {}, {}, {}, {}
     asks = []
@@ -197,6 +197,10 @@ def scenarios_for(prog, x, rng, per_prog):
         # everything but the first input is already in the file: the prompts must be for that one input only
         total2 = {i: rng.choice(["0", "1"]) for i in inputs}
         out.append(dict(cfg0={i: total2[i] for i in inputs[1:]}, answers=dict(total2), prompt=True, sched="nat", req=None, key=None))
+    if inputs:
+        # the user answers with a BLANK line wherever the answer is zero (valid: a blank number is zero); the answer counts as given
+        out.append(dict(cfg0={}, answers={i: ("" if v == "0" or n == 0 else v) for n, (i, v) in enumerate(sorted(total.items()))}, prompt=True,
+                        sched="nat", req=None, key=None))
     kind = rng.choice(["EOF", "BAD"])
     out.append(dict(cfg0={}, answers=dict(total), prompt=True, at={rng.choice([1, 2]): kind}, sched="nat", req=None, key=None))
     return out
